@@ -4,6 +4,7 @@
 //! usage: fir-harness <property> --seed N --tier quick|thorough --out DIR
 
 mod c06;
+mod c17;
 mod util;
 
 use std::io::Write;
@@ -46,6 +47,7 @@ fn main() {
     let mut out = Out::new();
     match cmd.as_str() {
         "C06" => c06::generate(&mut out, seed, thorough),
+        "C17" => c17::generate(&mut out, seed, thorough),
         other => {
             eprintln!("unknown property {}", other);
             std::process::exit(2);
